@@ -162,6 +162,8 @@ func c07AttData(k byte) *phase0.AttestationData {
 		d.BeaconBlockRoot = root('G')
 	case 'K': // as A, but voting for a block the cache cannot find: no nearness bonus at all
 		d.BeaconBlockRoot = root('K')
+	case 'Z':
+		d.BeaconBlockRoot = root('Z')
 	case 'I':
 		d.BeaconBlockRoot = root('I')
 		d.Target.Epoch = 2
@@ -219,6 +221,10 @@ func (p aaProv) AggregateAttestation(ctx context.Context, _ *api.AggregateAttest
 	n := 6
 	if k == 'B' {
 		n = 2
+	}
+	if k == 'Z' {
+		// an aggregate whose bit list has no positions at all ("0x01"): deliverable, and the emptiest there is
+		bits, n = bitfield.NewBitlist(0), 0
 	}
 	for i := 0; i < n; i++ {
 		bits.SetBitAt(uint64(i), true)
@@ -418,7 +424,7 @@ func c07Strats() []c07Strat {
 				return adLabel(r, err)
 			}
 		}},
-		{name: "aggregateattestation/best", fam: "best", kinds: "ABE", mk: func(e *c07Env) func(context.Context) (byte, error) {
+		{name: "aggregateattestation/best", fam: "best", kinds: "ABZE", mk: func(e *c07Env) func(context.Context) (byte, error) {
 			m := map[string]eth2client.AggregateAttestationProvider{}
 			for i, n := range names(len(e.nodes)) {
 				m[n] = aaProv{e, i}
@@ -598,7 +604,7 @@ func c07Score(k byte) int {
 		return 3
 	case 'G':
 		return 2
-	case 'K':
+	case 'K', 'Z':
 		return 1
 	}
 	return 0
@@ -737,7 +743,7 @@ func c07Check(st *c07Strat, e *c07Env, r *mc.Result) mc.Verdict {
 		return fail("returned-after-timeout", "returned after the configured timeout")
 	}
 	valid := func(k byte) bool {
-		return k == 'A' || k == 'B' || k == 'C' || k == 'G' || k == 'K' || ((k == 'I' || k == 'J') && !strings.Contains(st.kinds, "I"))
+		return k == 'A' || k == 'B' || k == 'C' || k == 'G' || k == 'K' || k == 'Z' || ((k == 'I' || k == 'J') && !strings.Contains(st.kinds, "I"))
 	}
 	// arrival sets
 	type arr struct {
@@ -802,7 +808,7 @@ func c07Check(st *c07Strat, e *c07Env, r *mc.Result) mc.Verdict {
 					cnt[a.k]++
 				}
 			}
-			for _, k := range []byte("ABCGKIJH") { // fixed order: the message must not depend on map iteration
+			for _, k := range []byte("ABCGKZIJH") { // fixed order: the message must not depend on map iteration
 				if c := cnt[k]; c >= e.threshold && e.threshold > 0 {
 					return fail("error-despite-threshold-reached", fmt.Sprintf("returned an error although %d nodes reported %c within the timeout (threshold %d)", c, k, e.threshold))
 				}
@@ -838,7 +844,7 @@ func c07Check(st *c07Strat, e *c07Env, r *mc.Result) mc.Verdict {
 		if st.thresh && cntLE[e.ret] < e.threshold {
 			return fail("below-threshold", fmt.Sprintf("used a value reported by %d node(s), below the threshold", cntLE[e.ret]))
 		}
-		for _, k := range []byte("ABCGKIJH") { // fixed order: the message must not depend on map iteration
+		for _, k := range []byte("ABCGKZIJH") { // fixed order: the message must not depend on map iteration
 			if c := cntLT[k]; c > cntLE[e.ret] {
 				return fail("not-most-frequent", fmt.Sprintf("returned %c (%d) although %c had been reported %d times", e.ret, cntLE[e.ret], k, c))
 			}
